@@ -167,10 +167,20 @@ impl FraudProof for BadEncodingFraudProof {
 
         let mut nmt = Nmt::default();
 
+        // only the first quadrant of the square holds original data: every leaf of a row or a
+        // column in the lower / right half of the square is committed in the parity namespace
+        let axis_in_ods = usize::from(self.index) < ods_width;
+
         for (n, share) in rebuilt_shares.iter().enumerate() {
-            let ns = if n < ods_width {
+            let ns = if axis_in_ods && n < ods_width {
                 // safety: length must be correct
-                Namespace::from_raw(&share[..NS_SIZE]).unwrap()
+                match Namespace::from_raw(&share[..NS_SIZE]) {
+                    Ok(ns) => ns,
+                    // the original data we reconstructed from proven shares doesn't even
+                    // carry a valid namespace
+                    // befp is legit
+                    Err(_) => return Ok(()),
+                }
             } else {
                 Namespace::PARITY_SHARE
             };
